@@ -196,7 +196,7 @@ def classify_denominator(pm, u, f, den, te):
     core = den
     if isinstance(core, ast.Constant) and isinstance(core.value, (int, float)) and core.value != 0:
         return "constant"
-    names = {n.id for n in ast.walk(den) if isinstance(n, ast.Name)}
+    names = {n.id for n in ast.walk(den) if isinstance(n, ast.Name)} - {"np", "numpy", "math"}
     chains = {attr_chain(n) for n in ast.walk(den) if isinstance(n, ast.Attribute)} - {None}
     if any(isinstance(n, ast.Call) and (call_name(n) or "") == "len" for n in ast.walk(den)) or ".shape[" in s or s.endswith(".shape[0]"):
         return "size>=1"
